@@ -19,7 +19,7 @@ func lemma_C03_KE(group uint16, data []byte) {
 	verifAssert(y.Unmarshal(b) == nil, "C03/KE/unmarshal-ok")
 	verifAssert(y.DiffieHellmanGroup == group, "C03/KE/group")
 	verifAssert(verifBytesEq(y.KeyExchangeData, data), "C03/KE/data")
-	verifAssert(verifFresh(y.KeyExchangeData), "C20/KE/owns-data")
+	verifAssert(verifFresh(y.KeyExchangeData) && verifDisjoint(y.KeyExchangeData, b), "C20/KE/owns-data")
 }
 
 func lemma_C05_dec_KE(b []byte) {
@@ -27,7 +27,7 @@ func lemma_C05_dec_KE(b []byte) {
 	y := new(KeyExchange)
 	verifAssert(y.Unmarshal(b) == nil, "C05/KE/accepts-reference")
 	verifAssert(y.DiffieHellmanGroup == uint16(b[0])<<8|uint16(b[1]) && verifBytesEq(y.KeyExchangeData, b[4:]), "C05/KE/fields-recovered")
-	verifAssert(verifFresh(y.KeyExchangeData), "C20/KE/owns-data")
+	verifAssert(verifFresh(y.KeyExchangeData) && verifDisjoint(y.KeyExchangeData, b), "C20/KE/owns-data")
 }
 
 func lemma_C12_KE(b []byte) {
@@ -61,7 +61,7 @@ func lemma_C03_Notify(proto uint8, typ uint16, spi, data []byte) {
 	verifAssert(y.Unmarshal(b) == nil, "C03/Notify/unmarshal-ok")
 	verifAssert(y.ProtocolID == proto && y.NotifyMessageType == typ, "C03/Notify/scalars")
 	verifAssert(verifBytesEq(y.SPI, spi) && verifBytesEq(y.NotificationData, data), "C03/Notify/byte-strings")
-	verifAssert(verifFresh(y.SPI) && verifFresh(y.NotificationData), "C20/Notify/owns-data")
+	verifAssert(verifFresh(y.SPI) && verifDisjoint(y.SPI, b) && verifFresh(y.NotificationData) && verifDisjoint(y.NotificationData, b), "C20/Notify/owns-data")
 }
 
 func lemma_C05_dec_Notify(b []byte) {
@@ -100,7 +100,7 @@ func lemma_C03_SK(next uint8, data []byte) {
 	verifAssert(err == nil && verifBytesEq(b, data), "C03/SK/marshal")
 	y := new(Encrypted)
 	verifAssert(y.Unmarshal(b) == nil && verifBytesEq(y.EncryptedData, data), "C03/SK/unmarshal")
-	verifAssert(verifFresh(y.EncryptedData), "C20/SK/owns-data")
+	verifAssert(verifFresh(y.EncryptedData) && verifDisjoint(y.EncryptedData, b), "C20/SK/owns-data")
 }
 
 // ---- header (RFC 7296 3.1) ----
